@@ -189,6 +189,16 @@ class Exporter:
             sv = [callee.string_value() if callee is not None and hasattr(callee, "string_value") else str(callee)]
         elif kind == "asm":
             sv, iv = tokenize_asm(op)
+        elif kind == "alloc":
+            shp = list(op.results[0].type.get_shape())
+            iv = [(-1 if d < 0 else d) for d in shp]
+            sv = [str(op.results[0].type)]
+        elif kind == "subview":
+            DYN = -9223372036854775808
+            def vals(name):
+                return [(-777777 if v == DYN else v) for v in op.properties[name].get_values()]
+            iv = vals("static_offsets") + vals("static_sizes") + vals("static_strides")
+            sv = [str(len(vals("static_sizes")))]
         if kind is None:
             pure = bool(is_side_effect_free(op)) and not op.regions
             kind = "pure" if pure else "eff"
